@@ -231,9 +231,20 @@ package internal_planner
 // the map is walked does not matter.
 //@ func fingerprint [C09]
 //@   flag arith=bv
+//@   flag function
+//@   modifies nothing
 //@   flag checks=-index,-assert
 //@   loop 1:
 //@     modifies elems(descr)
 //@     step add: descr[0] == prev(descr[0]) + ch64(k + "\x00" + v)
 //@     step xor: descr[1] == prev(descr[1]) ^ ch64(k + "\x00" + v)
 //@     step mix: descr[2] == prev(descr[2]) * (1779033703 + 2 * ch64(k + "\x00" + v))
+
+// label_format rewrites labels: like every other stage that does (drop, by / without,
+// the parsers), it hands the entry on with the fingerprint of the labels it now has,
+// so label sets that became equal are one series and the others stay apart.
+//@ func (*LabelFormatPlanner).Process$3 [C09]
+//@   flag checks=-index,-assert
+//@   check fingerprint-follows-the-labels: result == nil ==> entry.Fingerprint == fingerprint(entry.Labels)
+//@   loop 1:
+//@     modifies everything
